@@ -6,7 +6,7 @@
 From Coq Require Import List NArith Bool String.
 From Verif Require Import lib.Json gen.MigrationTable gen.AssertSites model.Migrate model.MigrateValid model.MigrateSites
   proofs.MigrateProofs proofs.MigrateValidProofs proofs.MigrateStepwiseProofs proofs.MigrateRewriteProofs proofs.MigrateFrameProofs proofs.MigrateFullProofs
-  proofs.MigrateSitesProofs.
+  proofs.MigrateCensusProofs proofs.MigrateSitesProofs.
 Import ListNotations.
 
 (* a definition already at the current version (or newer) is returned untouched: the very input, no UUID drawn *)
@@ -136,6 +136,19 @@ Theorem c16_latest_establishes_all : forall from,
   = Some (true, true, true).
 Proof. exact latest_flags. Qed.
 Print Assumptions c16_latest_establishes_all.
+
+(* templates, census: every template member of a router or a wait found in the code (EnumerateTemplates methods,
+   engine:"evaluated" tags of flows/routers and flows/routers/waits) is reached by a path of every router row of the
+   catalogue Migrate13_3 uses *)
+Theorem c16_catalog_covers_router_templates : catalog_covers_router_templates = true.
+Proof. exact catalog_covers_router_templates_true. Qed.
+Print Assumptions c16_catalog_covers_router_templates.
+
+(* read / marshal / read, census: no member of flows/** that gets a non-zero default before unmarshalling is left out
+   of the marshalled form when it is zero *)
+Theorem c16_read_defaults_survive_marshal : read_defaults_survive_marshal = true.
+Proof. exact read_defaults_survive_marshal_true. Qed.
+Print Assumptions c16_read_defaults_survive_marshal.
 
 (* finite obligation behind c16_valid_after_partial: no catalogue path starts at the `type` member *)
 Theorem c16_heads_avoid_type : heads_avoid_type = true.
